@@ -11,7 +11,7 @@ import json
 import warnings
 
 from harness import iocheck as io
-from harness.gen.pddlgen import IoGenProblem, key_through, forward_plans, add_temporal, corpus_pddl
+from harness.gen.pddlgen import IoGenProblem, key_through, forward_plans, add_temporal, corpus_pddl, tt_plans, tt_rows
 
 META = {
     "level": "translation_validation",
@@ -118,7 +118,7 @@ def run(ctx):
     stats = {"generated": 0, "generator_artefact": 0, "writer_documented_unsupported": {}, "ai_parser_rejects": {},
              "reader_documented_unsupported": {}, "compared": {"up": 0, "ai": 0}, "plans_round_tripped": 0,
              "bisim": {"closed": 0, "bounded": 0}, "metric_kinds": {}, "features": {}, "empty_preconditions": 0,
-             "structurally_equal_metrics": 0, "out_of_model": 0, "writer_warned_inexact_constant": 0, "temporal_problems": 0,
+             "structurally_equal_metrics": 0, "out_of_model": 0, "writer_warned_inexact_constant": 0, "temporal_problems": 0, "tt_plans_round_tripped": 0,
              "durative_actions_compared": 0, "timed_effects_compared": 0}
     cases, owners = [], []
     generated = 0
@@ -176,6 +176,7 @@ def run(ctx):
         if io.pddl_lib_drops_duplicate_effect(dom):
             feats = set(feats) | {"duplicate-effect-in-and"}
         plans = forward_plans(P, rng, max_depth=3, max_plans=2)
+        ttps = tt_plans(P, rng, n=2, fixed=hasattr(g, "label"))
         for rname, kw in (("up", dict(force_up_pddl_reader=True)), ("ai", dict(force_ai_planning_reader=True))):
             reader = PDDLReader(**kw)
             try:
@@ -214,6 +215,30 @@ def run(ctx):
                 ctx.fail("oracle", "plan round trip: " + plan_fail["why"], ["c18", "reader-" + rname, "plan-round-trip"] + sorted(feats),
                          dict(payload, reader=rname, plan=plan_fail), True)
                 pcs = []
+            # time-triggered plans: (action instance, start, duration) must come back unchanged
+            for tp in ttps:
+                try:
+                    text = w.get_plan(tp)
+                    backP = reader.parse_plan_string(P, text, w.get_item_named)
+                    # an action the writer dropped (constantly false condition) does not exist in the re-read problem
+                    in_q = all(Q.has_action(w.get_pddl_name(ai.action)) for _, ai, _ in tp.timed_actions)
+                    backQ = reader.parse_plan_string(Q, text) if in_q else None
+                    want = tt_rows(tp)
+                    gotP = tt_rows(backP)
+                    wantQ = tt_rows(tp, w.get_pddl_name)
+                    gotQ = tt_rows(backQ) if in_q else wantQ
+                    bad = None
+                    if gotP != want:
+                        bad = {"written": text, "expected": str(want), "parsed_back": str(gotP)}
+                    elif gotQ != wantQ:
+                        bad = {"written": text, "expected": str(wantQ), "parsed_on_reread_problem": str(gotQ)}
+                    stats["tt_plans_round_tripped"] += 1
+                except Exception as e:  # noqa
+                    bad = {"plan": str(tp), "raised": "%s: %s" % (type(e).__name__, str(e)[:160])}
+                if bad is not None:
+                    ctx.fail("oracle", "time-triggered plan round trip changes (action, start, duration): %s" % (bad.get("raised") or "times/instances differ"),
+                             ["c18", "reader-" + rname, "tt-plan-round-trip"], dict(payload, reader=rname, tt_plan=bad), True)
+                    break
             try:
                 case, info = io.build_case(P, Q, key_through(w.get_item_named), depth, cap, plans=pcs, split_intervals=True)
             except io.OutOfFragment as e:
